@@ -332,6 +332,18 @@ def respClass (frame : Bytes) : R RespClass := do
 def validateUnlessProps (cls : RespClass) (frame : Bytes) : R Unit :=
   if cls ≠ .props then respValidate ((frame.drop 10).dropLast) else .ok ()
 
+/-- the classes as the translator numbers them -/
+def RespClass.tag : RespClass → Int
+  | .base => 0 | .state => 1 | .caps => 2 | .props => 3 | .energy => 4 | .humidity => 5
+
+/-- `Response._construct` up to the constructor call: frame checksum, class by id / frame type / group, body check
+    (skipped for properties responses), and the payload `frame[10:-2]` handed to the class -/
+def constructDispatch (frame : Bytes) : R (Int × Bytes) := do
+  let _ ← frameValidate frame
+  let cls ← respClass frame
+  let _ ← validateUnlessProps cls frame
+  pure (cls.tag, ((frame.drop 10).dropLast).dropLast)
+
 /-- `response_class(frame_mv[10:-2])` -/
 def buildResp (cls : RespClass) (id : UInt8) (p : Bytes) : R Resp :=
   match cls with
